@@ -772,6 +772,13 @@ func (env *SpecEnv) call(x SCall) Val {
 		g.decl("fn "+bx, fmt.Sprintf("(declare-fun %s (%s) Int)", bx, srt))
 		g.decl("fn un"+bx, fmt.Sprintf("(declare-fun un%s (Int) %s)", bx, srt))
 		return Val{S: app("un"+bx, "(ival "+v.S+")"), Sort: srt, T: t}
+	case "asiface":
+		// asiface(x): the interface value holding the concrete value x
+		v := arg(0)
+		if v.T == nil {
+			env.fail("asiface of untyped value")
+		}
+		return env.a.makeIface(env.st, v, types.NewInterfaceType(nil, nil))
 	case "box":
 		// box(x): the interface payload a value of x's type gets when stored in an interface
 		v := arg(0)
